@@ -46,6 +46,13 @@ func (self *BinaryConv) doNative(ctx context.Context, src []byte, desc *thrift.T
 		}
 	}()
 
+	// The native number scanner looks at the byte behind a leading '0' without checking that there is one:
+	// an input that ends in '0' (a truncated document, or the top-level number 0) must have a readable byte behind it.
+	if n := len(src); n > 0 && src[n-1] == '0' {
+		tmp := make([]byte, n+1)
+		copy(tmp, src)
+		src = tmp[:n]
+	}
 	jp := rt.Mem2Str(src)
 	fsm.Init(0, unsafe.Pointer(desc))
 	start := len(*buf)
